@@ -567,6 +567,11 @@ def call_builtin(it, f, args, kwargs, node):
                 try:
                     return f(*args, **kwargs)
                 except Exception as e:      # noqa
+                    if isinstance(selfobj, types.ModuleType) and selfobj.__name__ in _ENV_MODULES:
+                        # a real operating-system call made on a value of the contract's ABSTRACT environment (a path that
+                        # exists only in the model, ...): its failure says nothing about the program (seed C20-seed14 was
+                        # credited to a TypeError out of os.stat on a modelled path; a harmless os.stat would have alarmed)
+                        raise Unsupported(f'environment call {selfobj.__name__}.{f.__name__} has no model in this contract')
                     it.raise_(type(e), *e.args, node=node)
             if isinstance(selfobj, str) and f.__name__ == 'join':
                 parts = it.iterate(args[0], node)
@@ -578,6 +583,9 @@ def call_builtin(it, f, args, kwargs, node):
                 it.run.notes.append('str.format with symbolic parts -> placeholder')
                 return '<?>'
     raise Unsupported(f'call of {f!r} (no contract, no model) at L{getattr(node, "lineno", "?")}')
+
+
+_ENV_MODULES = ('posix', 'nt', '_io', 'io', '_socket', 'socket', 'shutil', 'select', '_thread')
 
 
 def _concrete(a):
